@@ -35,7 +35,9 @@
  *                (DESIGN 3.2: the factor 50 covers a convergence as slow as h^0.03,
  *                 the error of the extrapolated value is then <= 14 |FD(h)-FD(h/2)|)
  *   invariances: kn En (normal), kv E (value), ks En/gnz (second derivative)
- * kv, kn, ks were calibrated over 8 seeds (see mutants/C22.md).
+ * kv = kn = ks = 512 (x4 for the homogeneity of the second derivative): calibrated over
+ * 8 seeds x quick tier, worst observed error / tolerance <= 0.01 for the rounding terms
+ * and <= 0.2 (theoretical bound 0.28) for the FD-convergence term, see mutants/C22.md.
  */
 #ifndef VERIF_C22_COMMON_HXX
 #define VERIF_C22_COMMON_HXX
@@ -265,9 +267,9 @@ namespace c22 {
     bool isotropic = true;
     bool hasRef = true;
     bool checkSecond = true;
-    R kv = 128;                //!< value constant
-    R kn = 128;                //!< normal constant
-    R ks = 128;                //!< second-derivative constant
+    R kv = 512;                //!< value constant
+    R kn = 512;                //!< normal constant
+    R ks = 512;                //!< second-derivative constant
     std::string secondKeySuffix;  //!< extra input class for the second-derivative keys
     R eta = 0;                 //!< relative FD step (0: chosen from the gaps)
     bool positive = true;      //!< the value is an equivalent stress (>= 10 seps in the domain)
@@ -445,7 +447,8 @@ namespace c22 {
       if (o.checkSecond) {
         const auto& dl = std::get<2>(rl);
         constexpr int n = N == 1 ? 3 : (N == 2 ? 4 : 6);
-        const R t = o.ks * En / std::min(R(1), em.gap) * (dnn + 1 / st.vm);
+        // one more factor 4: the two operands are both computed values
+        const R t = 4 * o.ks * En / std::min(R(1), em.gap) * (dnn + 1 / st.vm);
         for (int i = 0; i < n; ++i)
           for (int j = 0; j < n; ++j)
             c.close(lam * static_cast<R>(dl(i, j)), dn(i, j), t,
